@@ -44,8 +44,17 @@ fn show_call(c: &Call) -> String {
 #[derive(Clone, PartialEq, Debug)]
 pub struct Snap { dest: Vec<u8>, wb: Vec<u8>, open: Vec<(u64, EBMLSize, usize)> }
 fn snap(w: &TagWriter<ScriptDest>) -> Snap { Snap { dest: w.dest.data.clone(), wb: w.working_buffer.clone(), open: w.open_tags.clone() } }
-fn restore(s: &Snap, chunk: usize) -> TagWriter<ScriptDest> {
-    TagWriter { dest: ScriptDest { data: s.dest.clone(), chunk, writes: 0 }, open_tags: s.open.clone(), working_buffer: s.wb.clone() }
+/// An independent copy of a writer in its current state (the twin of the C09 clauses).  Bitwise copy, then the three
+/// heap-owning fields known today are replaced by real clones (without dropping the aliased originals): a scalar field
+/// added to TagWriter later is copied along instead of breaking a struct literal here.
+fn dup(w: &TagWriter<ScriptDest>) -> TagWriter<ScriptDest> {
+    unsafe {
+        let mut c: TagWriter<ScriptDest> = std::ptr::read(w);
+        std::ptr::write(&mut c.dest, ScriptDest { data: w.dest.data.clone(), chunk: w.dest.chunk, writes: 0 });
+        std::ptr::write(&mut c.open_tags, w.open_tags.clone());
+        std::ptr::write(&mut c.working_buffer, w.working_buffer.clone());
+        c
+    }
 }
 
 /// representation invariant: every Known(start) <= |wb|, starts non-decreasing bottom to top
@@ -236,6 +245,7 @@ struct Hist { calls: Vec<Call>, accepted: Vec<T>, conformant: bool, pending_unkn
 
 fn step(table: &bs::Table, w: &mut TagWriter<ScriptDest>, call: &Call, h: &mut Hist, rep: &mut Report) {
     let pre = snap(w);
+    let twin0 = if matches!(call, Call::W(T::M(_, Master::Full(_)), _) | Call::WDep(_)) { Some(dup(w)) } else { None };
     let exp = expected(table, &pre, call);
     let r = std::panic::catch_unwind(std::panic::AssertUnwindSafe(|| apply(w, call)));
     let ctx = |h: &Hist| format!("history=[{}] call={}", h.calls.iter().map(show_call).collect::<Vec<_>>().join(" ; "), show_call(call));
@@ -278,7 +288,7 @@ fn step(table: &bs::Table, w: &mut TagWriter<ScriptDest>, call: &Call, h: &mut H
     // C09: Full == Start, children, End ; deprecated == option based   (twin writer from the same pre-state)
     match call {
         Call::W(T::M(id, Master::Full(children)), opt) => {
-            let mut tw = restore(&pre, w.dest.chunk);
+            let mut tw = twin0.unwrap();
             let mut tr = apply(&mut tw, &Call::W(T::M(*id, Master::Start), opt.clone()));
             if tr.is_ok() { for c in children { tr = apply(&mut tw, &Call::W(c.clone(), Opt::Default)); if tr.is_err() { break; } } }
             if tr.is_ok() { tr = apply(&mut tw, &Call::W(T::M(*id, Master::End), Opt::Default)); }
@@ -289,7 +299,7 @@ fn step(table: &bs::Table, w: &mut TagWriter<ScriptDest>, call: &Call, h: &mut H
             }
         }
         Call::WDep(t) => {
-            let mut tw = restore(&pre, w.dest.chunk);
+            let mut tw = twin0.unwrap();
             let tr = apply(&mut tw, &Call::W(t.clone(), Opt::Unknown));
             rep.clause("C09: the deprecated unknown-size call equals the option-based one (result and state)", tr.is_ok() == r.is_ok() && snap(&tw) == post, || ctx(h));
         }
